@@ -137,6 +137,7 @@ type Sim struct {
 	resetSnap  *resetSnapshot
 	firedLog   []string
 	firedRaw   []firing
+	rebuilding bool // a twin world is being rebuilt from a snapshot: inventory limits do not apply
 }
 
 // NewSim creates a world per the configuration and registers padding and universe types.
